@@ -140,3 +140,77 @@ Theorem C01_round_trip_end_to_end :
 Proof. exact (round_trip_end_to_end ). Qed.
 Print Assumptions C01_round_trip_end_to_end.
 
+
+(* ---- WITH negotiated compression (closes PARTIAL (1) above up to the flate oracle):
+   Proofs/WriterEventsZ.v, Proofs/RoundTripZ.v ----
+   The compressor stays an oracle of the writer model; the theorems say what the wire carries in
+   terms of that oracle (C02_wire_events_compressed) and, under the hypothesis that on this run
+   every recorded stream inflates to the plaintext of its message ([inflates_to]: what
+   "compress/flate is a correct deflater" means here; validated by the correspondence check on
+   every run, satisfied by Spec/Inflate.deflate0 by InflateP.inflate_deflate0), that the reader
+   of the opposite role returns exactly the plaintext data messages of the abstract writer, in
+   order, with their types, and answers exactly the pings.  No hypothesis on [w_negotiated c]:
+   the uncompressed theorems above are the instances [w_negotiated c = false]. *)
+Require Import WS.Proofs.WriterEventsZ WS.Proofs.ReaderZ3 WS.Proofs.ReaderFlateP WS.Proofs.RoundTripZ.
+
+Theorem C01_wire_wellformed_and_events_compressed :
+  forall c ks ops,
+    14 < w_bufsize c -> w_bufsize c < 2^62 ->
+    Forall (fun k => length k = 4%nat) ks -> Forall op_small ops -> no_prepared ops ->
+    (w_negotiated c = false \/
+     (flate_good c (init_wst c ks None) ops /\ rf_good c (init_wst c ks None) ops)) ->
+    let r := wrun c (init_wst c ks None) ops in
+    let res := map e_werr_N (fst r) in
+    let A := arun (w_negotiated c) ast0 (combine (map wop_aop ops) res) in
+    let Z := zrun (w_negotiated c) zst0 (combine ops res) in
+    exists fs, wire_of (evs (snd r)) = encode_frames fs /\ Forall wf_frame fs /\
+      wf_wire (negb (w_server c)) (w_negotiated c) (map (fun f => (f, true)) fs) = true /\
+      zerase Z = A /\
+      map sent_of_event (events_of fs) = map zwire (z_out Z) /\
+      Forall zstr_ok (z_out Z) /\
+      (a_dead A = false -> a_open A = None -> snd (events_from None fs) = None).
+Proof. exact wire_wellformed_and_events_compressed. Qed.
+Print Assumptions C01_wire_wellformed_and_events_compressed.
+
+Theorem C01_abstract_flags_exact_compressed :
+  forall c ks ops,
+    14 < w_bufsize c -> w_bufsize c < 2^62 ->
+    Forall (fun k => length k = 4%nat) ks -> Forall op_small ops -> no_prepared ops ->
+    (w_negotiated c = false \/
+     (flate_good c (init_wst c ks None) ops /\ rf_good c (init_wst c ks None) ops)) ->
+    let r := wrun c (init_wst c ks None) ops in
+    let A := arun (w_negotiated c) ast0 (combine (map wop_aop ops) (map e_werr_N (fst r))) in
+    (a_dead A = true <-> werr (snd r) <> None) /\
+    (a_dead A = false -> (a_open A = None <-> cur (snd r) = None)) /\
+    (a_dead A = false -> a_comp A = wcomp (snd r)).
+Proof. exact abstract_flags_exact_compressed. Qed.
+Print Assumptions C01_abstract_flags_exact_compressed.
+
+Theorem C01_round_trip_end_to_end_compressed :
+  forall inflate c ks ops cr b extra,
+    14 < w_bufsize c -> w_bufsize c < 2^62 ->
+    Forall (fun k => length k = 4%nat) ks -> Forall op_small ops -> no_prepared ops ->
+    (w_negotiated c = false \/
+     (flate_good c (init_wst c ks None) ops /\ rf_good c (init_wst c ks None) ops)) ->
+    let r := wrun c (init_wst c ks None) ops in
+    let res := map e_werr_N (fst r) in
+    let A := arun (w_negotiated c) ast0 (combine (map wop_aop ops) res) in
+    let Z := zrun (w_negotiated c) zst0 (combine ops res) in
+    a_dead A = false ->              (* no close message was sent (and no transport error seen) *)
+    a_open A = None ->               (* no message left open by the application *)
+    Forall (inflates_to inflate) (z_out Z) ->   (* the compressor deflated correctly on this run *)
+    server cr = negb (w_server c) -> (w_negotiated c = true -> negotiated cr = true) ->
+    custom_handlers cr = false ->
+    binv b -> (125 <= bsize b)%nat ->
+    blen (wire_of (evs (snd r))) < 2^63 ->
+    pending b = wire_of (evs (snd r)) ++ extra -> extra <> [] ->
+    let dm := flat_map sent_data (a_out A) in
+    exists s_r fs,
+      run_ops inflate cr (init_rst b) (repeat OReadMessage (length dm)) = (map plain_out dm, s_r) /\
+      rerror s_r = None /\ outoffuel s_r = false /\
+      Forall wf_frame fs /\ wire_of (evs (snd r)) = encode_frames fs /\
+      wf_wire (negb (w_server c)) (w_negotiated c) (map (fun f => (f, true)) fs) = true /\
+      map sent_of_event (events_of fs) = map zwire (z_out Z) /\
+      wlog s_r = map WPong (pings_of (body fs)).
+Proof. exact round_trip_end_to_end_compressed. Qed.
+Print Assumptions C01_round_trip_end_to_end_compressed.
